@@ -140,7 +140,7 @@ class TooManyPaths(Exception):
 
 BUILTIN_TYPES = {"str": str, "bytes": bytes, "list": list, "tuple": tuple, "dict": dict, "int": int, "bool": bool, "float": float, "set": set}
 PURE_STR = {"lower", "upper", "replace", "strip", "lstrip", "rstrip", "encode", "decode", "startswith", "endswith",
-            "split", "format", "join", "capitalize", "title", "splitlines", "count", "find"}
+            "split", "format", "join", "capitalize", "title", "splitlines", "count", "find", "rfind", "index", "rindex", "partition", "rpartition"}
 
 
 class Interp:
